@@ -89,6 +89,9 @@ def run(tier, pid):
                     "deposit": deposit, "history": [list(o) for o in hist]}
             rep.violation(case, "%s after history %s: %s" % (r["unit"][0], list(hist), msg),
                           group=(r["unit"][0], msg.split(" ")[0], len(hist)))
+    if pid == "C05":
+        from mcx.checks import c05snap
+        c05snap.run_part(rep, tier)
     rep.set("units", sorted(per_unit, key=lambda x: (x["universe"], x["fee"])))
     rep.set("alphabet", [list(o) for o in ops])
     rep.set("palette", {"scale": scale, "deposit": deposit})
@@ -111,6 +114,9 @@ def run(tier, pid):
 
 
 def replay(case, pid=None):
+    if case.get("part") == "snap":
+        from mcx.checks import c05snap
+        return c05snap.replay(case)
     out = ledger.replay_history(case["universe"], tuple(case["fee"]), case["scale"], case["deposit"], case["history"],
                                 rate=case.get("rate", 0.0))
     return ["%s step %d: %s" % (p, i, m) for p, i, m in out if pid is None or p == pid]
